@@ -50,6 +50,16 @@ class Prelude:
 
 
 @dataclass
+class Atoms:
+    """rule R4: placeholder replaced, after all items are extracted, by generated `macro_rules!` that map every
+    `local_name!("x")` / `ns!(x)` / `namespace_prefix!("x")` occurring in the extracted text to a distinct integer
+    literal (two atoms are equal iff their strings are equal)."""
+    local_ctor: str = 'LocalName'
+    ns_ctor: str = 'Namespace'
+    prefix_ctor: str = 'Prefix'
+
+
+@dataclass
 class Item:
     file: str
     kind: str           # fn | macro | enum | struct | const | static
@@ -341,7 +351,11 @@ class UnitBuild:
                 if wrap is not None:
                     self.gen.add(wrap + ' {', 'gen')
                 open_wrap = wrap
-            if isinstance(part, Raw):
+            if isinstance(part, Atoms):
+                self.atoms_at = len(self.gen.lines)
+                self.atoms_part = part
+                self.gen.add('/*ATOMS*/', 'gen')
+            elif isinstance(part, Raw):
                 self.gen.add(part.text, 'gen')
             elif isinstance(part, Prelude):
                 p = os.path.join(VERIF, 'contracts', part.file)
@@ -350,6 +364,24 @@ class UnitBuild:
                 self.emit_item(part)
         if open_wrap is not None:
             self.gen.add('}', 'gen')
+        if getattr(self, 'atoms_at', None) is not None:
+            alltext = '\n'.join(l for l, o in zip(self.gen.lines, self.gen.origin) if o[0] in ('repo', 'contract', 'prelude'))
+            locals_ = sorted(set(re.findall(r'local_name!\(\s*"([^"]*)"\s*\)', alltext)))
+            nss = sorted(set(re.findall(r'\bns!\(\s*(\w*)\s*\)', alltext)))
+            prefixes = sorted(set(re.findall(r'namespace_prefix!\(\s*"([^"]*)"\s*\)', alltext)))
+            ap = self.atoms_part
+            self.atom_table = dict(local={n: i + 1 for i, n in enumerate(locals_)}, ns={n: i + 1 for i, n in enumerate(nss)},
+                                   prefix={n: i + 1 for i, n in enumerate(prefixes)})
+            m = 'macro_rules! local_name {' + ' '.join('("%s") => { %s(%d) };' % (n, ap.local_ctor, i + 1) for i, n in enumerate(locals_)) + ' }\n'
+            m += 'macro_rules! ns {' + ' '.join('(%s) => { %s(%d) };' % (n, ap.ns_ctor, i + 1) for i, n in enumerate(nss)) + ' }\n'
+            if prefixes:
+                m += 'macro_rules! namespace_prefix {' + ' '.join('("%s") => { %s(%d) };' % (n, ap.prefix_ctor, i + 1) for i, n in enumerate(prefixes)) + ' }'
+            if not locals_:
+                m = m.replace('macro_rules! local_name { }', '')
+            if not nss:
+                m = m.replace('macro_rules! ns { }', '')
+            self.gen.lines[self.atoms_at] = m.replace('\n', ' ')
+            self.count('R4-atoms', len(locals_) + len(nss) + len(prefixes))
         # every contract block must have been used (a lost anchor is undecided, not a pass)
         for k in self.contracts.fn:
             if k not in self.used_contracts and k not in self.contracts.shared:
